@@ -33,10 +33,10 @@ PROPS["C04"] = dict(
                "counted as msgs:restrict:*). Phase 'stacks' skips packets whose parse is a guess (opaque payload directly under MPLS or an 802.11 data frame; tags on a session-stage PPPoE packet), treats encoder "
                "switches (append_padding, use_length_field, use_mldv2), header_size, DHCP's vend area, an RTP profile without the X bit and a trailing IPv4 End-of-list entry as not on the wire, and the "
                "generator only puts RFC 4884 extensions where they exist (ICMP 3/11/12, ICMPv6 1/3; length field when the quoted datagram exceeds 128 octets). Its wire images are written from RFC 792/950/1191/4443/4861/4191/2710/3810/8415/951/2516/1035/4884/3550/9293, IEEE 802.2 and 802.11 field layouts.",
-    phases=[dict(name="programs", harness="c04.cpp", flavor="asan", mode="main", cases=dict(quick=400000, thorough=4000000)),
-            dict(name="lists", harness="c04_lists.cpp", flavor="asan", mode="lists", cases=dict(quick=40000, thorough=2000000)),
-            dict(name="messages", harness="c04_messages.cpp", flavor="asan", mode="messages", cases=dict(quick=30000, thorough=1500000)),
-            dict(name="stacks", harness="c03.cpp", flavor="asan", mode="built", cases=dict(quick=60000, thorough=1500000))],
+    phases=[dict(name="programs", harness="c04.cpp", flavor="asan", mode="main", cases=dict(quick=400000, thorough=2000000)),
+            dict(name="lists", harness="c04_lists.cpp", flavor="asan", mode="lists", cases=dict(quick=40000, thorough=400000)),
+            dict(name="messages", harness="c04_messages.cpp", flavor="asan", mode="messages", cases=dict(quick=30000, thorough=300000)),
+            dict(name="stacks", harness="c03.cpp", flavor="asan", mode="built", cases=dict(quick=60000, thorough=400000))],
     rule="case = (class, random program of setter calls); distinct = distinct program text; non-trivial: every program step is followed by getter, wire and re-serialization checks; "
          "lists phase: case = (class, configuration, 1-3 codes, program of 1..14 add/remove/search steps with random data of 0..N octets), distinct = distinct program text; "
          "messages phase: case = (message kind, context, program of 1..10 field sets), distinct = distinct program text",
